@@ -103,6 +103,7 @@ def load_package():
         except (OSError, SyntaxError) as e:
             raise PyFrontendError('%s does not parse: %s' % (p, e))
         canonical_compares(tree)
+        inline_explaining_variables(tree)
         pkg.modules[rel] = Module(rel, p, src, tree)
     # stub file for the extension module
     pyi = os.path.join(root, '_C.pyi')
@@ -240,6 +241,76 @@ def canonical_compares(tree):
                     node.left, node.comparators, node.ops = r, [l], [_MIRROR[type(op)]()]
                 elif isinstance(op, (ast.Eq, ast.NotEq, ast.Is, ast.IsNot)):
                     node.left, node.comparators = r, [l]
+    return tree
+
+
+def inline_explaining_variables(tree):
+    """`t = <expr>` immediately followed by the only use of `t`, where that use is the whole value
+    of a `return`, or a direct (not starred) argument of the call that is the value of the next
+    `return` / assignment / expression statement: the rules see the expression where it is used.
+    (`out = f(x); return out`, `tmp = g(y); return f(tmp)`.)  The name must be bound once and read
+    once in the function, and the use must not sit in a nested scope (lambda, comprehension),
+    where it could be evaluated later or more than once."""
+    for fn in ast.walk(tree):
+        if not isinstance(fn, (ast.FunctionDef, ast.AsyncFunctionDef)):
+            continue
+        counts = {}
+        for n in ast.walk(fn):
+            if isinstance(n, ast.Name):
+                c = counts.setdefault(n.id, [0, 0])
+                c[0 if isinstance(n.ctx, ast.Store) else 1] += 1
+        params = {a.arg for a in fn.args.posonlyargs + fn.args.args + fn.args.kwonlyargs}
+
+        def fix(body):
+            changed = True
+            while changed:
+                changed = False
+                for i in range(len(body) - 1):
+                    s0, s1 = body[i], body[i + 1]
+                    if not (isinstance(s0, ast.Assign) and len(s0.targets) == 1 and
+                            isinstance(s0.targets[0], ast.Name)):
+                        continue
+                    t = s0.targets[0].id
+                    if counts.get(t) != [1, 1] or t in params:
+                        continue
+                    host = None
+                    if isinstance(s1, ast.Return) and s1.value is not None:
+                        host = ('value', s1)
+                    elif isinstance(s1, ast.Assign) and isinstance(s1.value, ast.Call):
+                        host = ('value', s1)
+                    elif isinstance(s1, ast.Expr) and isinstance(s1.value, ast.Call):
+                        host = ('value', s1)
+                    if host is None:
+                        continue
+                    v = s1.value
+                    done = False
+                    if isinstance(v, ast.Name) and v.id == t and isinstance(s1, ast.Return):
+                        s1.value = s0.value
+                        done = True
+                    elif isinstance(v, ast.Call):
+                        # evaluation order: everything evaluated before the argument must be simple
+                        pre_ok = isinstance(v.func, (ast.Name, ast.Attribute))
+                        for j, a in enumerate(v.args):
+                            if isinstance(a, ast.Name) and a.id == t and pre_ok:
+                                v.args[j] = s0.value
+                                done = True
+                                break
+                            if not isinstance(a, (ast.Name, ast.Constant, ast.Attribute)):
+                                break
+                    if done:
+                        del body[i]
+                        changed = True
+                        break
+            for s_ in body:
+                for fld in ('body', 'orelse', 'finalbody'):
+                    b = getattr(s_, fld, None)
+                    if isinstance(b, list) and b and isinstance(b[0], ast.stmt) and \
+                            not isinstance(s_, (ast.FunctionDef, ast.AsyncFunctionDef, ast.ClassDef)):
+                        fix(b)
+                if isinstance(s_, ast.Try):
+                    for h in s_.handlers:
+                        fix(h.body)
+        fix(fn.body)
     return tree
 
 
